@@ -28,13 +28,13 @@ CLAIMED = {
             'spec-conformant PDU into an instance of the right class carrying exactly the wire values (decoder tables included). Loops are cut at '
             'invariants; bit packing is proved against an LSB-first spec via a separately proved lemma. Five known findings are proved on the complement of their regions.',
             'File-record codecs (FC 20/21) are BOUNDED units (0..3 record groups per message, decode loops unrolled; field values and data lengths symbolic) and never counted as proved; '
-            'the client-side decode of the 43/14 response is not under contract (its encode and paging are C20). '
+            'the 43/14 response codec likewise (0..3 objects; its paging is C20). '
             'S-PDU table is a transcription of the specification; A1-A10; struct/compat library models; z3/cvc5.',
             'contract-based deductive verification (pyvc VC generation from /repo AST + z3/cvc5)', 'DESIGN.md section 4 C01'),
     'C02': ('proof', 'Per class: Decoder.decode(fc + K(v).encode()) has view v (real encode composed with real decode, through the real decoder tables); '
             'encode() changes no attribute (hence encode twice / encode after decode give identical bytes); decode into an instance holding an earlier result '
             'equals decode into a fresh instance. For all field values and all list lengths.',
-            'FC 20/21: bounded units (0..3 record groups), never counted as proved; 43/14 response decode not under contract. Five known findings. A1-A10; z3/cvc5.',
+            'FC 20/21 (0..3 record groups) and the 43/14 response (0..3 objects): bounded units, never counted as proved. Five known findings. A1-A10; z3/cvc5.',
             'contract-based deductive verification (pyvc VC generation from /repo AST + z3/cvc5)', 'DESIGN.md section 4 C02'),
     'C13': ('proof', 'Decomposition of ModbusTransactionManager.execute along its call structure, each piece a lemma over the real code: the retry loop is cut at the '
             'invariant "frames written + retries left <= retries + 1" (variant: retries left), which gives at most 1 + retries transmissions and termination of the loop '
